@@ -20,6 +20,7 @@ package bcl
 //
 //@ group C01,C02,C03,C04,C10,C06
 //@ func (*vm).run
+//@   use cnt_mono, cnt_strict
 //@   requires prog_set: vm.prog != nil && vm.prog.linePos != nil
 //@   requires initial: 0 <= vm.tos && vm.tos <= 1024 && 0 <= vm.blockTos && vm.blockTos <= 16 && vm.pc >= 0
 //@   requires blocks_have_maps: forall i int :: 0 <= i && i < vm.blockTos ==> vm.blockStack[i].Fields != nil
